@@ -37,7 +37,6 @@ def run(chk, repo):
     chk.rule("C18-E3", "image rows (header) and per-line variables (parsed records) share one dimension name", 3)
     chk.rule("C18-E4", "handlers on the open path that do not re-raise only cover the cache lookup or collect errors that are raised later", 2)
     chk.rule("C18-E5", "leader / volume directory / image descriptor structs consist of definite-width fields", 3)
-    chk.attempt(e1, chk, op)
     tie = chk.attempt(e3, chk, op)
     chk.attempt(trace_truncation, chk, op, tie)
     chk.attempt(e2, chk, op, covered_by="trace_truncation", rules=("C18-E2",))
@@ -49,6 +48,7 @@ def run(chk, repo):
     chk.attempt(e8, chk, op)
     chk.attempt(positions_from_the_front, chk, repo)
     chk.attempt(missing_files, chk, repo)
+    chk.attempt(e1, chk, op, covered_by="missing_files", rules=("C18-E1",))
     from ..layout import UnmodelledConstruct
     L = Layouts(repo)
     SWALLOWING = {"Optional", "Select", "GreedyRange", "GreedyBytes", "GreedyString", "Peek", "RepeatUntil", "Default", "NullTerminated", "CString", "StopIf", "IfThenElse", "If", "Switch", "LazyStruct", "Lazy"}
@@ -113,6 +113,10 @@ def e1(chk, op):
                         if norm(test.left) == norm(e.node.slice):
                             ok = True
                             how = f"guarded by `{norm(test)}`"
+            if not ok and not fi.module.name.startswith("ceos_alos2.sar_image.caching"):
+                # a product file read by one of the openers: whether its absence ends in an OSError - through a handler here, in a
+                # context manager, in the caller - is decided by evaluating io.open with that file missing (C18-E9)
+                raise AnalysisError(f"{where}: {short(e.node, 40)} has no KeyError handler / membership guard in the recognised form ({how or 'none around it'}); a missing file is decided by evaluation (C18-E9)")
             chk.require(ok, "C18-E1", where, f"{short(e.node, 40)}: {how}",
                         f"{short(e.node, 40)} is not protected: a missing file surfaces as a bare KeyError ({how or 'no handler'})", key=f"{fi.key}:{norm(e.node.slice)}",
                         sample={"site": short(e.node, 40), "idiom": how})
